@@ -1,5 +1,119 @@
-/- Oracle driver for C17 (stub: replaced when the property's model is built). -/
+/- Oracle for C17.  Evaluates the HAND model only: Go's built-in `==`/`<` from Model/GoOrd and a
+hand-written mirror of the wrappers of pure/eq, pure/ord, pure/monoid, pure/semigroup in a
+call-logging monad.  Gen/Pure.lean (what the theorems are about) is deliberately not imported;
+the mirror below is the specification the theorems of Props/C17 establish for the generated
+definitions (`contramap_*`, `from_id`, `monoid_*`, `compare_spec`), so harness = oracle means the
+real code behaves like the translated term.  Protocol: see go/harness/pure/main.go. -/
+import Golem.Model.GoOrd
 import Golem.Driver.Util
 namespace Golem.Driver.C17
-def main : IO Unit := IO.eprintln "oracle: no driver for C17 yet"
+open Golem.Model.GoOrd Golem.Driver
+
+abbrev Log := StateM (List String)
+def say (s : String) : Log Unit := modify (· ++ [s])
+
+/-- ord[T].Compare: LT = -1, EQ = 0, GT = 1 -/
+def compare {T : Type} [GoOrd T] (a b : T) : Int := if goLt a b then -1 else if goLt b a then 1 else 0
+
+def hexDigit (c : Char) : Option Nat :=
+  if '0' ≤ c ∧ c ≤ '9' then some (c.toNat - '0'.toNat)
+  else if 'a' ≤ c ∧ c ≤ 'f' then some (c.toNat - 'a'.toNat + 10)
+  else if 'A' ≤ c ∧ c ≤ 'F' then some (c.toNat - 'A'.toNat + 10)
+  else none
+
+def unhexChars : List Char → Option GoString
+  | [] => some []
+  | a :: b :: r => do
+    let x ← hexDigit a; let y ← hexDigit b; let rest ← unhexChars r
+    pure (UInt8.ofNat (16 * x + y) :: rest)
+  | _ => none
+
+def unhex (s : String) : Option GoString := if s == "-" then some [] else unhexChars s.toList
+
+def hexNib (n : Nat) : Char := if n < 10 then Char.ofNat (n + '0'.toNat) else Char.ofNat (n - 10 + 'a'.toNat)
+
+def hx (s : GoString) : String :=
+  if s.isEmpty then "-" else String.ofList (s.flatMap fun b => [hexNib (b.toNat / 16), hexNib (b.toNat % 16)])
+
+/-- Go int arithmetic wraps modulo 2^64. -/
+def wrap64 (z : Int) : Int := (z + 9223372036854775808) % 18446744073709551616 - 9223372036854775808
+
+-- the user functions of the harness
+def lt (x y : Int) : Log Bool := do say s!"b:{x}:{y}"; pure (decide (x < y))
+def odd (x y : Int) : Log Int := do say s!"b:{x}:{y}"; pure (if x < y then 5 else if x = y then -7 else 0)
+def sub (a b : Int) : Log Int := do say s!"s:{a}:{b}"; pure (wrap64 (a - b))
+def concat (a b : GoString) : Log GoString := do say s!"s:{hx a}:{hx b}"; pure (a ++ b)
+def divk (k : Int) (x : Int) : Log Int := do say s!"p:{x}"; pure (Int.tdiv x k)   -- Go's `/` truncates
+def projs (k : Nat) (s : GoString) : Log Int := do
+  say s!"p:{hx s}"
+  match k with
+  | 0 => pure s.length
+  | 1 => pure (match s with | [] => -1 | b :: _ => b.toNat)
+  | _ => pure (((s.map (·.toNat)).foldl (· + ·) 0 % 7 : Nat) : Int)
+
+-- mirror of the wrappers
+def contraMap {A B R : Type} (base : A → A → Log R) (p : B → Log A) (a b : B) : Log R := do
+  let x ← p a; let y ← p b; base x y
+def fromF {T R : Type} (f : T → T → Log R) (a b : T) : Log R := f a b
+structure Mon (T : Type) where
+  empty : Unit → Log T
+  combine : T → T → Log T
+def monoidFromOp {T : Type} (e : T) (op : T → T → Log T) : Mon T := ⟨fun _ => pure e, fun a b => fromF op a b⟩
+def monoidFrom {T : Type} (e : T) (sg : T → T → Log T) : Mon T := ⟨fun _ => pure e, sg⟩
+
+def fin {R : Type} (sh : R → String) (c : Log R) : String :=
+  let (r, tr) := c.run []
+  s!"{sh r} | {" ".intercalate tr}"
+
+def showB (b : Bool) : String := if b then "true" else "false"
+
+def triple {T : Type} [GoOrd T] (a b c : T) : String :=
+  s!"{compare a b} {compare b a} {compare b c} {compare a c} {showB (goEq a b)} {showB (goEq b a)} {showB (goEq b c)} {showB (goEq a c)} {showB (goEq a a)}"
+
+def monLine {T : Type} (sh : T → String) (m : Mon T) (a b : T) : String :=
+  fin id (do let e ← m.empty (); let c ← m.combine a b; pure s!"{sh e} {sh c}")
+
+def inRange (z : Int) : Bool := -9223372036854775808 ≤ z && z ≤ 9223372036854775807
+
+def intsOf (ws : List String) : Option (List Int) := do
+  let v ← ints ws
+  if v.all inRange then some v else none
+
+def step (line : String) : String :=
+  let bad := "bad-op"
+  match words line with
+  | [] => bad
+  | op :: args =>
+    match op, args with
+    | "eqi", [a, b] => match intsOf [a, b] with | some [a, b] => showB (goEq a b) | _ => bad
+    | "ordi", [a, b] => match intsOf [a, b] with | some [a, b] => toString (compare a b) | _ => bad
+    | "eqs", [a, b] => match unhex a, unhex b with | some a, some b => showB (goEq a b) | _, _ => bad
+    | "ords", [a, b] => match unhex a, unhex b with | some a, some b => toString (compare a b) | _, _ => bad
+    | "tri", [a, b, c] => match intsOf [a, b, c] with | some [a, b, c] => triple a b c | _ => bad
+    | "trs", [a, b, c] => match unhex a, unhex b, unhex c with | some a, some b, some c => triple a b c | _, _, _ => bad
+    | "cme", [k, a, b] => match intsOf [k, a, b] with
+      | some [k, a, b] => if k ≤ 0 then bad else fin showB (contraMap (fromF lt) (divk k) a b)
+      | _ => bad
+    | "cmo", [k, a, b] => match intsOf [k, a, b] with
+      | some [k, a, b] => if k ≤ 0 then bad else fin toString (contraMap (fromF odd) (divk k) a b)
+      | _ => bad
+    | "cmes", [k, a, b] => match k.toInt?, unhex a, unhex b with
+      | some k, some a, some b => if k < 0 ∨ k > 2 then bad else fin showB (contraMap (fun x y => pure (goEq x y)) (projs k.toNat) a b)
+      | _, _, _ => bad
+    | "cmos", [k, a, b] => match k.toInt?, unhex a, unhex b with
+      | some k, some a, some b => if k < 0 ∨ k > 2 then bad else fin toString (contraMap (fun x y => pure (compare x y)) (projs k.toNat) a b)
+      | _, _, _ => bad
+    | "fre", [a, b] => match intsOf [a, b] with | some [a, b] => fin showB (fromF lt a b) | _ => bad
+    | "fro", [a, b] => match intsOf [a, b] with | some [a, b] => fin toString (fromF odd a b) | _ => bad
+    | "sgi", [a, b] => match intsOf [a, b] with | some [a, b] => fin toString (fromF sub a b) | _ => bad
+    | "sgs", [a, b] => match unhex a, unhex b with | some a, some b => fin hx (fromF concat a b) | _, _ => bad
+    | "moi", [e, a, b] => match intsOf [e, a, b] with | some [e, a, b] => monLine toString (monoidFromOp e sub) a b | _ => bad
+    | "mfi", [e, a, b] => match intsOf [e, a, b] with | some [e, a, b] => monLine toString (monoidFrom e (fromF sub)) a b | _ => bad
+    | "mos", [e, a, b] => match unhex e, unhex a, unhex b with
+      | some e, some a, some b => monLine hx (monoidFromOp e concat) a b | _, _, _ => bad
+    | "mfs", [e, a, b] => match unhex e, unhex a, unhex b with
+      | some e, some a, some b => monLine hx (monoidFrom e (fromF concat)) a b | _, _, _ => bad
+    | _, _ => bad
+
+def main : IO Unit := eachLine step
 end Golem.Driver.C17
